@@ -9,6 +9,7 @@ import (
 	"net/http"
 	"reflect"
 	"runtime/debug"
+	"sort"
 	"strconv"
 	"strings"
 	"sync"
@@ -47,6 +48,12 @@ type c34Shape struct {
 	RHdr         int     `json:"resp_header_set"`
 	Resp         c34Body `json:"resp_body"`
 	RespTrailers bool    `json:"resp_trailers"`
+	// Pad[k] > 0 adds one more field whose value has that many bytes to
+	// k = 0: the request header (X-Pad), 1: the request trailers (X-Padt, only
+	// with ReqTrailers), 2: the response header (X-Pad), 3: the response
+	// trailers (X-Padt, only with RespTrailers). It steers the length of the
+	// encoded field section, i.e. the payload length of that HEADERS frame.
+	Pad [4]int `json:"pad"`
 }
 
 type c34Fault struct {
@@ -76,6 +83,40 @@ var (
 	c34ReqTrailer  = http.Header{"X-Tr1": {"one"}, "X-Tr2": {"two two"}}
 	c34RespTrailer = http.Header{"X-Rt1": {"r one"}, "X-Rt2": {"r two"}}
 )
+
+// c34PadValue is a field value of n bytes. Every byte has a Huffman code of
+// 10 or more bits, so the QPACK encoder sends the value raw and the encoded
+// field section grows by exactly one byte per byte of value (as long as the
+// size of the value's length prefix does not change).
+func c34PadValue(n int) string {
+	const chars = "~!#^"
+	b := make([]byte, n)
+	for i := range b {
+		b[i] = chars[i%len(chars)]
+	}
+	return string(b)
+}
+
+func c34WithPad(h http.Header, name string, n int) http.Header {
+	out := h.Clone()
+	if n > 0 {
+		out[name] = []string{c34PadValue(n)}
+	}
+	return out
+}
+
+func c34WantReqHeader(sh c34Shape) http.Header {
+	return c34WithPad(c34ReqHeaders[sh.Hdr], "X-Pad", sh.Pad[0])
+}
+func c34WantReqTrailer(sh c34Shape) http.Header {
+	return c34WithPad(c34ReqTrailer, "X-Padt", sh.Pad[1])
+}
+func c34WantRespHeader(sh c34Shape) http.Header {
+	return c34WithPad(c34RespHeaders[sh.RHdr], "X-Pad", sh.Pad[2])
+}
+func c34WantRespTrailer(sh c34Shape) http.Header {
+	return c34WithPad(c34RespTrailer, "X-Padt", sh.Pad[3])
+}
 
 func c34Bytes(n int, mul, add byte) []byte {
 	b := make([]byte, n)
@@ -247,11 +288,15 @@ func c34Run(c *vx.Ctx, x c34Case) *c34Obs {
 				o.reqBody, o.reqBodyErr = io.ReadAll(r.Body)
 				o.reqTrailer = r.Trailer.Clone()
 				h := w.Header()
-				for k, v := range c34RespHeaders[sh.RHdr] {
+				for k, v := range c34WantRespHeader(sh) {
 					h[k] = append([]string(nil), v...)
 				}
 				if sh.RespTrailers {
-					h.Set("Trailer", "X-Rt1, X-Rt2")
+					if sh.Pad[3] > 0 {
+						h.Set("Trailer", "X-Rt1, X-Rt2, X-Padt")
+					} else {
+						h.Set("Trailer", "X-Rt1, X-Rt2")
+					}
 				}
 				if sh.Resp.Declared {
 					h.Set("Content-Length", strconv.Itoa(sh.Resp.Size))
@@ -269,7 +314,7 @@ func c34Run(c *vx.Ctx, x c34Case) *c34Obs {
 					body = body[n:]
 				}
 				if sh.RespTrailers {
-					for k, v := range c34RespTrailer {
+					for k, v := range c34WantRespTrailer(sh) {
 						h[k] = append([]string(nil), v...)
 					}
 				}
@@ -329,7 +374,7 @@ func c34Run(c *vx.Ctx, x c34Case) *c34Obs {
 					o.harnessErr = "NewRequest: " + err.Error()
 					return
 				}
-				for k, v := range c34ReqHeaders[sh.Hdr] {
+				for k, v := range c34WantReqHeader(sh) {
 					req.Header[k] = append([]string(nil), v...)
 				}
 				if sh.Method == "POST" {
@@ -339,7 +384,7 @@ func c34Run(c *vx.Ctx, x c34Case) *c34Obs {
 						req.ContentLength = -1
 					}
 					if sh.ReqTrailers {
-						req.Trailer = c34ReqTrailer.Clone()
+						req.Trailer = c34WantReqTrailer(sh)
 					}
 				}
 				resp, err := cc.RoundTrip(req)
@@ -377,10 +422,41 @@ func c34Run(c *vx.Ctx, x c34Case) *c34Obs {
 func c34HeaderSubset(got, want http.Header) string {
 	for k, v := range want {
 		if !reflect.DeepEqual(got[k], v) {
-			return fmt.Sprintf("%s: got %q, want %q", k, got[k], v)
+			return fmt.Sprintf("%s: got %s, want %s", k, c34Vals(got[k]), c34Vals(v))
 		}
 	}
 	return ""
+}
+
+// c34Vals / c34Hdr print field values, long ones abbreviated.
+func c34Vals(vs []string) string {
+	out := make([]string, len(vs))
+	for i, v := range vs {
+		if len(v) > 48 {
+			out[i] = fmt.Sprintf("%q…(%d bytes)", v[:16], len(v))
+		} else {
+			out[i] = fmt.Sprintf("%q", v)
+		}
+	}
+	return "[" + strings.Join(out, " ") + "]"
+}
+
+func c34Hdr(h http.Header) string {
+	keys := make([]string, 0, len(h))
+	for k := range h {
+		keys = append(keys, k)
+	}
+	sort.Strings(keys)
+	var sb strings.Builder
+	sb.WriteString("{")
+	for i, k := range keys {
+		if i > 0 {
+			sb.WriteString(" ")
+		}
+		sb.WriteString(k + ":" + c34Vals(h[k]))
+	}
+	sb.WriteString("}")
+	return sb.String()
 }
 
 func c34Short(b []byte) string {
@@ -452,7 +528,7 @@ func c34Check(w *vx.W, x c34Case) {
 		fail("request/line", "handler saw %s %s host %q; want %s /p/a?q=1 host \"example.tld\"", o.method, o.uri, o.host, sh.Method)
 		return
 	}
-	if d := c34HeaderSubset(o.reqHeader, c34ReqHeaders[sh.Hdr]); d != "" {
+	if d := c34HeaderSubset(o.reqHeader, c34WantReqHeader(sh)); d != "" {
 		fail("request/header", "request header field %s", d)
 		return
 	}
@@ -465,12 +541,12 @@ func c34Check(w *vx.W, x c34Case) {
 		return
 	}
 	if sh.Method == "POST" && sh.ReqTrailers {
-		if !reflect.DeepEqual(o.reqTrailer, c34ReqTrailer) {
-			fail("request/trailers", "handler saw trailers %v, want %v", o.reqTrailer, c34ReqTrailer)
+		if want := c34WantReqTrailer(sh); !reflect.DeepEqual(o.reqTrailer, want) {
+			fail("request/trailers", "handler saw trailers %s, want %s", c34Hdr(o.reqTrailer), c34Hdr(want))
 			return
 		}
 	} else if len(o.reqTrailer) != 0 {
-		fail("request/trailers-invented", "handler saw trailers %v but none were sent", o.reqTrailer)
+		fail("request/trailers-invented", "handler saw trailers %s but none were sent", c34Hdr(o.reqTrailer))
 		return
 	}
 
@@ -506,7 +582,7 @@ func c34Check(w *vx.W, x c34Case) {
 		fail("response/status", "client saw status %d, want %d", o.status, c34RespStatus[sh.RHdr])
 		return
 	}
-	if d := c34HeaderSubset(o.respHeader, c34RespHeaders[sh.RHdr]); d != "" {
+	if d := c34HeaderSubset(o.respHeader, c34WantRespHeader(sh)); d != "" {
 		fail("response/header", "response header field %s", d)
 		return
 	}
@@ -519,12 +595,12 @@ func c34Check(w *vx.W, x c34Case) {
 		return
 	}
 	if sh.RespTrailers {
-		if !reflect.DeepEqual(o.respTrailer, c34RespTrailer) {
-			fail("response/trailers", "client saw trailers %v, want %v", o.respTrailer, c34RespTrailer)
+		if want := c34WantRespTrailer(sh); !reflect.DeepEqual(o.respTrailer, want) {
+			fail("response/trailers", "client saw trailers %s, want %s", c34Hdr(o.respTrailer), c34Hdr(want))
 			return
 		}
 	} else if len(o.respTrailer) != 0 {
-		fail("response/trailers-invented", "client saw trailers %v but none were sent", o.respTrailer)
+		fail("response/trailers-invented", "client saw trailers %s but none were sent", c34Hdr(o.respTrailer))
 		return
 	}
 	if o.writeErr != nil {
@@ -551,19 +627,82 @@ func c34SizeClass(n int) int {
 
 // ------------------------------------------------------------------ shapes
 
+// c34VarintBounds are the payload lengths at which the QUIC varint that
+// carries an HTTP/3 frame length changes its encoding size (1 -> 2 bytes at
+// 2^6, 2 -> 4 bytes at 2^14) and that one frame of an exchange can reach here.
+// The next one, 2^30 (4 -> 8 bytes), needs a single 1 GiB Write / field
+// section and is out of reach of this harness.
+var c34VarintBounds = []int{1 << 6, 1 << 14}
+
 // c34Bodies lists the body variants of one direction. client: the writer is
 // the client (every Write is flushed as its own packet, so 1-byte chunks are
 // kept to small bodies).
+//
+// Chunk 0 bodies of up to 32768 bytes travel as ONE DATA frame whose payload
+// length is the body size: the client hands the transport the whole body in
+// one Read (io.Copy's buffer is 32 KiB) and the transport writes one frame per
+// Read; the handler passes the whole body to one ResponseWriter.Write and the
+// server writes buffered + written bytes as one frame. So the sizes b-1, b, b+1
+// around every varint boundary b put a DATA frame length on either side of it.
 func c34Bodies(client bool) []c34Body {
 	out := []c34Body{{Size: 0, Declared: true}, {Size: 0, Declared: false}}
+	around := func(decl bool, b int) {
+		for d := -1; d <= 1; d++ {
+			out = append(out, c34Body{Size: b + d, Declared: decl})
+		}
+	}
 	for _, decl := range []bool{true, false} {
 		out = append(out, c34Body{Size: 1, Declared: decl})
 		out = append(out, c34Body{Size: 10, Declared: decl}, c34Body{Size: 10, Declared: decl, Chunk: 1})
+		around(decl, c34VarintBounds[0])
 		out = append(out, c34Body{Size: 1000, Declared: decl}, c34Body{Size: 1000, Declared: decl, Chunk: 300})
 		if !client {
 			out = append(out, c34Body{Size: 1000, Declared: decl, Chunk: 1})
 		}
+		around(decl, c34VarintBounds[1])
 		out = append(out, c34Body{Size: 20000, Declared: decl}, c34Body{Size: 20000, Declared: decl, Chunk: 1000})
+		// two consecutive frames of exactly the boundary length
+		out = append(out, c34Body{Size: 2 * c34VarintBounds[1], Declared: decl, Chunk: c34VarintBounds[1]})
+	}
+	return out
+}
+
+// Header-block sweep. The encoded field section of a HEADERS frame is
+// K + L bytes long, L being the length of the pad value (sent raw, see
+// c34PadValue) and K the encoding of everything else: 2 bytes of prefix, the
+// pad field's name and length prefix, and the other fields (those of the
+// harness plus what transport and server add: pseudo-headers, user-agent,
+// accept-encoding, content-length, trailer, date, content-type). K does not
+// depend on L inside one window (the length prefix of the value has 1 byte for
+// L < 127 and 3 bytes for 255 <= L < 16511), and c34PadKMin <= K <= c34PadKMax
+// for the base shapes below, so running every L in
+// [b-1-c34PadKMax, b+1-c34PadKMin] produces frames of b-1, b and b+1 bytes.
+const (
+	c34PadKMin = 8
+	c34PadKMax = 110
+)
+
+type c34PadBase struct {
+	Kind   int // index into c34Shape.Pad
+	Shape  c34Shape
+	Bounds []int
+}
+
+func c34PadBases(quick bool) []c34PadBase {
+	small := c34Body{Size: 10, Declared: true}
+	out := []c34PadBase{
+		// minimal shapes: K is small enough for the 2^6 boundary as well
+		{0, c34Shape{Method: "GET", Resp: c34Body{}}, c34VarintBounds},
+		{1, c34Shape{Method: "POST", Req: c34Body{Size: 10}, ReqTrailers: true, Resp: small}, c34VarintBounds},
+		{2, c34Shape{Method: "GET", Resp: c34Body{}}, c34VarintBounds},
+		{3, c34Shape{Method: "GET", Resp: c34Body{Size: 10}, RespTrailers: true}, c34VarintBounds},
+	}
+	if !quick {
+		big := c34VarintBounds[1:]
+		full := c34Shape{Method: "POST", Req: small, ReqTrailers: true, Resp: c34Body{Size: 1000, Declared: true, Chunk: 300}, RespTrailers: true}
+		for k := 0; k < 4; k++ {
+			out = append(out, c34PadBase{k, full, big})
+		}
 	}
 	return out
 }
@@ -590,10 +729,11 @@ func c34MismatchChunk(n int) int {
 
 func TestVerif_C34(t *testing.T) {
 	vx.Run(t, "C34", func(c *vx.Ctx) {
-		c.Rule("default runs: every message shape = {GET without body, POST x request body in {0,1,10,1000,20000} bytes x declared/undeclared Content-Length x chunking {all at once, 1 byte (small bodies), 300, 1000} x request trailers {none, 2}} x response {status/header set 2, body as for the request (1-byte chunks up to 1000 bytes), trailers {none, 2}} x request header set 2 (quick: the full cross product of request-body and response-body variants with the other dimensions paired; thorough: the full product), plus Content-Length mismatches (declared n, n-1 / n+1 bytes produced, n in {1,10,1000}) on the request and on the response; fault runs: for selected shapes (quick 8, thorough 40) first a default run that counts the datagrams of each direction, then every placement of 1 deviation (thorough, and quick for the two smallest shapes: 2 deviations) from {drop, duplicate, hold back past the next 1 / 3 datagrams} on every datagram index of either direction, handshake included. Each run is a real clientConn.RoundTrip against the real server over two real QUIC endpoints in a synctest bubble; non-trivial = the exchange ran, every planned deviation hit a datagram, and handler-side request and client-side response were compared field by field with what was sent")
+		c.Rule("default runs: every message shape = {GET without body, POST x request body in {0,1,10,63,64,65,1000,16383,16384,16385,20000,32768} bytes x declared/undeclared Content-Length x chunking {all at once = one Write = one DATA frame, 1 byte (small bodies), 300, 1000, 16384 (the 32768-byte body)} x request trailers {none, 2}} x response {status/header set 2, body as for the request (1-byte chunks up to 1000 bytes), trailers {none, 2}} x request header set 2 (quick: the full cross product of request-body and response-body variants with the other dimensions paired; thorough: the full product), plus Content-Length mismatches (declared n, n-1 / n+1 bytes produced, n in {1,10,1000}) on the request and on the response; frame-length boundaries: the body sizes b-1, b, b+1 written at once put one DATA frame of each direction on either side of every boundary b of the frame-length varint that is reachable (2^6 and 2^14), and part header-blocks does the same for the four HEADERS frames (request header, request trailers, response header, response trailers): one extra field whose raw-encoded value has every length L in [b-1-110, b+1-8] (b = 64: 1..57), which makes the encoded field section K+L bytes long with 8 <= K <= 110 constant per window, hence b-1, b and b+1 bytes for three of them (quick: minimal shapes, both boundaries; thorough: also a POST with bodies and trailers in both directions at 2^14); fault runs: for selected shapes (quick 9, thorough 116; one of them carries one 16384-byte DATA frame each way) first a default run that counts the datagrams of each direction, then every placement of 1 deviation (thorough, and quick for the two smallest shapes: 2 deviations) from {drop, duplicate, hold back past the next 1 / 3 datagrams} on every datagram index of either direction, handshake included. Each run is a real clientConn.RoundTrip against the real server over two real QUIC endpoints in a synctest bubble; non-trivial = the exchange ran, every planned deviation hit a datagram, and handler-side request and client-side response were compared field by field with what was sent")
 		c.Assume("network deviations are limited to <= 2 per exchange from {drop, duplicate, reorder past 1 or 3 datagrams}; corruption, partitions and address changes are not enumerated here (QUIC-level coverage: C19)")
 		c.Assume("only the header fields the harness sets are compared (the transport adds User-Agent / Accept-Encoding, the server adds Date); Request.ContentLength is compared only when a Content-Length was declared")
 		c.Assume("response declared Content-Length n with n+1 bytes written: the server trims the write, so the wire is consistent; accepted iff the client sees exactly the first n bytes AND the handler's Write returned an error")
+		c.Assume("frame lengths: DATA frames of one Write are at most 32768 bytes on the request side (io.Copy buffer) and 32768 here on the response side; the 2^30 varint boundary (one 1 GiB Write or field section) is out of reach and not covered; lengths on control streams (SETTINGS, GOAWAY) are not varied")
 		c.Assume("request Content-Length mismatches: the transport aborts the stream; accepted iff the handler (when it runs at all) gets a non-EOF read error")
 
 		reqBodies := c34Bodies(true)
@@ -647,6 +787,27 @@ func TestVerif_C34(t *testing.T) {
 			}
 		}, c34Check)
 
+		// ---- HEADERS frames (header and trailer blocks) around the varint boundaries
+		vx.Enumerate(c, "header-blocks", vx.Opts{Serial: true, Crumb: true}, func(yield func(c34Case) bool) {
+			bases := c34PadBases(c.Quick())
+			for _, b := range c34VarintBounds {
+				for _, pb := range bases {
+					for _, pbb := range pb.Bounds {
+						if pbb != b {
+							continue
+						}
+						for l := max(1, b-1-c34PadKMax); l <= b+1-c34PadKMin; l++ {
+							sh := pb.Shape
+							sh.Pad[pb.Kind] = l
+							if !yield(c34Case{Shape: sh}) {
+								return
+							}
+						}
+					}
+				}
+			}
+		}, c34Check)
+
 		// ---- fault enumeration
 		small := []c34Shape{
 			{Method: "GET", Resp: c34Body{Size: 0, Declared: true}},
@@ -659,6 +820,8 @@ func TestVerif_C34(t *testing.T) {
 			{Method: "POST", Req: c34Body{Size: 20000}, ReqTrailers: true, RHdr: 1, Resp: c34Body{Size: 20000, Declared: true}},
 			{Method: "POST", Req: c34Body{Size: 1000, Declared: true, Delta: -1}, Resp: c34Body{Size: 10, Declared: true}},
 			{Method: "GET", Resp: c34Body{Size: 1000, Declared: true, Delta: -1, Chunk: 300}},
+			// one DATA frame of exactly 2^14 bytes in each direction
+			{Method: "POST", Req: c34Body{Size: c34VarintBounds[1], Declared: true}, Resp: c34Body{Size: c34VarintBounds[1]}},
 		}
 		if !c.Quick() {
 			// thorough: a spread of further shapes
